@@ -76,5 +76,5 @@ MANIFEST = {
             "R5S selection compared on twin trees.",
     "note": "NBC's mirror law is C15's; the descent direction of CMA-ES / L-BFGS-B is decided by the twin runs (the optimisers are external). SEA-family levels are excluded from whole-run "
             "twins as the property states (selection is not index-stable). Trusted: Coq kernel, vm_compute, the harness.",
-    "technique": "Coq mirror theorems on pure selection/filter models + differential twin calls and twin seeded runs on the real package",
+    "technique": "Coq mirror theorems on pure selection/filter models + Individual's ordering and nearest-better clustering translated from the sources and proved to be the direction-aware models + differential twin calls and twin seeded runs on the real package",
 }
